@@ -747,6 +747,11 @@ type Script struct {
 }
 
 func (ts *TermStore) Script(prelude string, datatypes []string, hyps []*Term, goal *Term, getValues []*Term) Script {
+	return ts.ScriptOpt(prelude, datatypes, hyps, goal, getValues, false)
+}
+
+// ScriptOpt: dropNthPatterns leaves quantifiers whose only triggers mention seq.nth without patterns.
+func (ts *TermStore) ScriptOpt(prelude string, datatypes []string, hyps []*Term, goal *Term, getValues []*Term, dropNthPatterns bool) Script {
 	// collect cone
 	refs := map[int]int{}
 	var order []*Term
@@ -834,7 +839,7 @@ func (ts *TermStore) Script(prelude string, datatypes []string, hyps []*Term, go
 			return t.op
 		}
 		if t.kind == kQuant {
-			pats := ts.patterns(t.args[0], t.args[1])
+			pats := ts.patterns(t.args[0], t.args[1], dropNthPatterns)
 			if len(pats) == 0 {
 				return fmt.Sprintf("(%s ((%s %s)) %s)", t.op, t.args[0].op, t.args[0].sort, pr(t.args[1]))
 			}
@@ -919,7 +924,7 @@ func (ts *TermStore) freeBound(t *Term, bound map[int]bool) bool {
 
 // patterns: instantiation triggers for a quantifier: applications (seq.nth / select / uninterpreted) that have
 // the bound variable as a direct argument.
-func (ts *TermStore) patterns(bv, body *Term) []*Term {
+func (ts *TermStore) patterns(bv, body *Term, dropNthPatterns bool) []*Term {
 	var out []*Term
 	seen := map[int]bool{}
 	var walk func(t *Term)
@@ -935,6 +940,11 @@ func (ts *TermStore) patterns(bv, body *Term) []*Term {
 			}
 		}
 		if direct && (t.kind == kUF || (t.kind == kApp && (t.op == "seq.nth" || t.op == "select" || t.op == "str.at"))) && patternOK(t) {
+			if dropNthPatterns && ts.mentionsOp(t, "seq.nth") {
+				// z3 rewrites seq.nth internally, so a pattern containing it never matches (and switches off
+				// model-based instantiation for the quantifier): leave such a quantifier without patterns
+				return
+			}
 			out = append(out, t)
 			return
 		}
@@ -947,6 +957,27 @@ func (ts *TermStore) patterns(bv, body *Term) []*Term {
 		out = out[:3]
 	}
 	return out
+}
+
+func (ts *TermStore) mentionsOp(t *Term, op string) bool {
+	seen := map[int]bool{}
+	var walk func(t *Term) bool
+	walk = func(t *Term) bool {
+		if seen[t.id] {
+			return false
+		}
+		seen[t.id] = true
+		if t.kind == kApp && t.op == op {
+			return true
+		}
+		for _, a := range t.args {
+			if walk(a) {
+				return true
+			}
+		}
+		return false
+	}
+	return walk(t)
 }
 
 // Subst replaces every occurrence of from by to.
@@ -982,21 +1013,45 @@ func (ts *TermStore) Subst(t, from, to *Term) *Term {
 }
 
 // Skolemize replaces universally quantified variables in positive positions of a goal by fresh constants.
-func (ts *TermStore) Skolemize(g *Term) *Term {
+func (ts *TermStore) Skolemize(g *Term) *Term { return ts.skolem(g, true) }
+
+// skolem replaces by fresh constants the quantifiers of a goal that are universal in effect: forall at positive
+// polarity, exists at negative polarity (antecedents, under not). Only and / or / not / => / the branches of a
+// boolean ite are descended into; validity of the goal is preserved.
+func (ts *TermStore) skolem(g *Term, pos bool) *Term {
 	switch {
-	case g.kind == kQuant && g.op == "forall":
+	case g.kind == kQuant && ((g.op == "forall" && pos) || (g.op == "exists" && !pos)):
 		sk := ts.Fresh("sk!"+strings.Trim(g.args[0].op, "?"), g.args[0].sort)
-		return ts.Skolemize(ts.Subst(g.args[1], g.args[0], sk))
-	case g.kind == kApp && g.op == "=>":
-		return ts.mk(kApp, "=>", SBool, g.args[0], ts.Skolemize(g.args[1]))
+		return ts.skolem(ts.Subst(g.args[1], g.args[0], sk), pos)
+	case g.kind == kApp && g.op == "not" && len(g.args) == 1:
+		in := ts.skolem(g.args[0], !pos)
+		if in == g.args[0] {
+			return g
+		}
+		return ts.Not(in)
+	case g.kind == kApp && g.op == "=>" && len(g.args) == 2:
+		a, b := ts.skolem(g.args[0], !pos), ts.skolem(g.args[1], pos)
+		if a == g.args[0] && b == g.args[1] {
+			return g
+		}
+		return ts.mk(kApp, "=>", SBool, a, b)
 	case g.kind == kApp && (g.op == "and" || g.op == "or"):
 		na := make([]*Term, len(g.args))
+		same := true
 		for i, a := range g.args {
-			na[i] = ts.Skolemize(a)
+			na[i] = ts.skolem(a, pos)
+			same = same && na[i] == a
+		}
+		if same {
+			return g
 		}
 		return ts.mk(kApp, g.op, SBool, na...)
 	case g.kind == kApp && g.op == "ite" && g.sort == SBool:
-		return ts.mk(kApp, "ite", SBool, g.args[0], ts.Skolemize(g.args[1]), ts.Skolemize(g.args[2]))
+		a, b := ts.skolem(g.args[1], pos), ts.skolem(g.args[2], pos)
+		if a == g.args[1] && b == g.args[2] {
+			return g
+		}
+		return ts.mk(kApp, "ite", SBool, g.args[0], a, b)
 	}
 	return g
 }
